@@ -5,7 +5,7 @@ from ..ref import P, L, to32, le
 
 REQUIRED = ['dec:valid', 'dec:noncanon-s+p', 'dec:bit255', 'dec:negative-s', 'dec:reject-nonsquare', 'dec:reject-negt',
             'dec:accept', 'dec:reject', 'rep:coset', 'map:corner', 'map:random', 'batch:n=0', 'batch:n=1', 'batch:torsion',
-            'order', 'history', 'distinct', 'identity-reps', 'history:scalarmul', 'dec:group-trait', 'msm:large']
+            'order', 'history', 'distinct', 'identity-reps', 'history:scalarmul', 'dec:group-trait', 'msm:large', 'msm:none-input']
 
 
 def B(x):
@@ -216,9 +216,17 @@ def histories(ctx, n, steps):
                 regs.append((ctx.ref(rid, 1), aff, k))
             elif op == 'dsm':
                 k1, k2 = rng.choice([0, 1, rng.randrange(L)]), rng.choice([0, 1, rng.randrange(L)])
+                t1, t2 = cs(k1), cs(k2)
+                if rng.random() < 0.3:
+                    # unreduced 255-bit scalars (what the legacy from_bits constructor hands out): recodings reach the top positions
+                    k1 = rng.choice([(1 << 255) - 1, (1 << 254) + rng.randrange(1 << 254), (1 << 255) - 1 - rng.randrange(1 << 20)])
+                    t1 = 'u' + to32(k1).hex()
+                if rng.random() < 0.3:
+                    k2 = rng.choice([(1 << 255) - 1, (1 << 254) + rng.randrange(1 << 254)])
+                    t2 = 'u' + to32(k2).hex()
                 e = (ea * k1 + k2) % L
                 aff = vals.Pt(e, 0).affine()
-                rid = ctx.add('rs.dsm', cs(k1), tp, cs(k2), expect=pts.expect_rs(aff), cls=['history', 'history:scalarmul'])
+                rid = ctx.add('rs.dsm', t1, tp, t2, expect=pts.expect_rs(aff), cls=['history', 'history:scalarmul'])
                 regs.append((ctx.ref(rid, 1), aff, e))
             elif op == 'msm':
                 n_ = rng.choice([0, 1, 2, 3])
@@ -293,6 +301,14 @@ def large_msm(ctx):
         stoks, ptoks = lst([cs(k) for k in ks]), lst(['e' + p.tok() for p in ps])
         ctx.add('rs.vmsm', stoks, ptoks, expect=pts.expect_rs(aff), cls=['msm:large', 'n=%d' % (190 if n < 500 else 800)])
         ctx.add('rs.omsm', stoks, ptoks, expect=pts.expect_rs(aff), cls=['msm:large'])
+        # a point that failed to decode (None) anywhere in a large input: the whole result is None, whatever its scalar is
+        for pos in (0, n // 2, n - 1):
+            pl = ['e' + p.tok() for p in ps]
+            pl[pos] = '~'
+            sl = [cs(k) for k in ks]
+            if pos == 0:
+                sl[pos] = cs(0)
+            ctx.add('rs.omsm', lst(sl), lst(pl), expect=['none'], cls=['msm:large', 'msm:none-input'])
         if n <= 260:
             ctx.add('rs.msm', stoks, ptoks, expect=pts.expect_rs(aff), cls=['msm:large'])
 
